@@ -398,21 +398,27 @@ def check(ctx, rep):
             for bb, t in f.calls(HOST):
                 out.append((f, bb, t))
         return out
-    then_sites = host_sites('then')
+    # R04.b on the family of `then` (its body, its closures, helpers spliced in): the two hosted commands are named by the position of the
+    # parameter they come from (1 = self, 2 = other), not by the names of the variables that carry them
+    then_roots = [r for r in core.built if r.kind == 'AssocFn' and r.name == 'then' and path_matches(r.assoc.get('self_adt'), 'crux_core::command::Command')
+                  and not r.assoc.get('trait')]
+    then_sites = [(g, bb, t) for r in then_roots for g in [r] + core.closures_of(r) for bb, t in g.calls(HOST)] if len(then_roots) == 1 else []
     if len(then_sites) != 2:
         rep.bad('R04.b', 'then|hosts', 'Command::then: expected two host(..) calls, found %d' % len(then_sites))
     else:
         f = then_sites[0][0]
-        by_cmd = {}
+        by_pos = {}
         for g, bb, t in then_sites:
-            for n in upvar_names(g, t['args'][0]):
-                by_cmd[n] = (bb, t)
-        if set(by_cmd) != {'self', 'other'}:
-            rep.bad('R04.b', 'then|operands', 'Command::then hosts %s, expected self and other' % sorted(by_cmd))
+            tr = _prims.trace_to_root(core, g, t['args'][0], then_roots[0])
+            pos = set(o.n for h, o in tr if h is then_roots[0] and o.kind == 'arg')
+            if len(pos) == 1 and len(tr) and all(h is then_roots[0] and o.kind == 'arg' for h, o in tr):
+                by_pos[pos.pop()] = (bb, t)
+        if set(by_pos) != {1, 2} or then_sites[0][0] is not then_sites[1][0]:
+            rep.bad('R04.b', 'then|operands', 'Command::then hosts the parameters %s, expected self (1) and other (2) in one task' % sorted(by_pos))
         else:
-            edge = ready_edge_of_await(f, by_cmd['self'][0])
-            ok = edge is not None and by_cmd['other'][0] not in f.reachable([0], removed_edges=[edge]) and \
-                by_cmd['other'][0] in f.reachable([0])
+            edge = ready_edge_of_await(f, by_pos[1][0])
+            ok = edge is not None and by_pos[2][0] not in f.reachable([0], removed_edges=[edge]) and \
+                by_pos[2][0] in f.reachable([0])
             rep.expect('R04.b', ok, 'then|sequencing', 'host(other) is reachable only through the Ready edge of awaiting host(self)',
                        'Command::then can start hosting `other` before the future hosting `self` has completed')
     def hosted_of(fn_name):
